@@ -14,7 +14,7 @@ J = 'src/jsontypes.rs'
 
 MUTANTS = [
     ('decoder::decode_regular', r'rsm\.debug_id\.or\(rsm\._debug_id_new\)', 'rsm._debug_id_new.or(rsm.debug_id)'),
-    ('decoder::decode_regular', r'"<invalid>"', '"<invalid >"'),
+    ('decoder::decode_regular', r'SourceMap::new\(file, tokens, names, sources, source_content\)', 'SourceMap::new(None, tokens, names, sources, source_content)'),
     ('decoder::decode_regular', r'verif_string_or_default\(rsm\.range_mappings\)', 'verif_string_or_default(None)'),
     ('decoder::decode_regular', r'verif_vec_or_default\(rsm\.names\)', 'verif_vec_or_default(None)'),
     ('decoder::decode_regular', r'Value::Number\(num\) => num\.to_string\(\)\.into\(\)', 'Value::Number(num) => "".into()'),
